@@ -332,7 +332,7 @@ class SymVal(object):
             if not (t.endswith('*') or t.endswith('* const') or t.endswith('&')):
                 return mk(('int', None, {self.keys.key(x): 1}))
             if d.get('kind') == 'ParmVarDecl' and (t.endswith('*') or t.endswith('* const')):
-                return mk(('ptr', 'param:%s' % self.keys.key(x), {}))      # what the caller passed
+                return mk(('ptr', 'param:%s#%s' % (d.get('name'), d.get('id')), {}))      # what the caller passed
         return mk(('key', None, self.keys.key(x)))
 
     def _combine(self, sa, sb, f):
@@ -528,6 +528,9 @@ class SymVal(object):
             r = self._helper(c[1], args, svs, st)
             if r is not None:
                 return r
+        if c and c[0] == 'fn' and c[1].get('_qn') and args and all(single(s_) is not None for s_ in svs):
+            from .frontend import qn as _qn
+            return mk(('key', None, '%s(%s)' % (c[1].get('_qn') or c[1].get('name'), ','.join(render(single(s_)) for s_ in svs))))
         return mk(('key', None, self._key(x, st)))
 
     # -- internal helpers returning one of their pointer arguments, moved by a constant under a test
@@ -549,7 +552,7 @@ class SymVal(object):
         key = ('helper', id(f2))
         sub = getattr(self, '_subs', {}).get(key)
         if sub is None:
-            sub = SymVal(self.ctx, f2, helpers=False)
+            sub = SymVal(self.ctx, f2, seed_calls=self.seed_calls, helpers=False)
             self._subs = getattr(self, '_subs', {})
             self._subs[key] = sub
         # rename: the helper's parameters stand for the argument terms
@@ -562,7 +565,7 @@ class SymVal(object):
             if st2 is None:
                 continue
             st2 = dict(vals=dict(st2['vals']), conds=st2['conds'])
-            sv = sub.ev(kids(rn.ast)[0], st2)
+            sv = sub.expand(sub.ev(kids(rn.ast)[0], st2))
             if sv is None:
                 return None
             for (gd, t) in sv:
@@ -620,6 +623,25 @@ class SymVal(object):
                 txt = txt.replace(k_, render(a))
             return ('key', None, txt)
         return t
+
+    def expand(self, sv):
+        """Alternatives with merged-offset symbols (P..) of this analysis written out again."""
+        if sv is None:
+            return None
+        out = []
+        for (gd, t) in sv:
+            syms = [k_ for k_ in (t[2] if t[0] in ('ptr', 'int', 'elem') else {}) if k_ in self.phis]
+            if len(syms) == 1 and t[2][syms[0]] == 1:
+                rest = {k_: v for k_, v in t[2].items() if k_ != syms[0]}
+                for (g2, t2) in self.expand(self.phis[syms[0]]) or ():
+                    if t2[0] not in ('ptr', 'int') or (t[0] == 'ptr' and t2[1] != t[1]):
+                        return None
+                    out.append((frozenset(gd | g2), (t[0], t[1], ladd(t2[2], rest))))
+            elif syms:
+                return None
+            else:
+                out.append((gd, t))
+        return tuple(out) if len(out) <= MAXALT else None
 
     # ------------------------------------------------------------------ queries
     def value(self, node, e):
@@ -713,3 +735,40 @@ def lin_cmp(fact, op, lin):
     neg = ladd({}, lin, -1)
     flip = {'<': '>', '>': '<', '<=': '>=', '>=': '<=', '==': '==', '!=': '!='}
     return l2 == neg and o2 == flip[op]
+
+
+def seeded_search(ctx, f, names=('upper_bound', 'lower_bound')):
+    """(SymVal of f with the result of its table search as symbol U, base container key, the search call, the
+    function that contains the call) -- the search may sit in a file-local helper f was split into.
+    None when there is not exactly one such call in scope."""
+    found = []
+    for (uu, ff) in ctx.scope(f):
+        for x in walk(ff):
+            if x.get('kind') == 'CallExpr' and callee(x) and callee(x)[0] == 'fn' and callee(x)[1].get('name') in names:
+                found.append((ff, x))
+    if len(found) != 1:
+        return None
+    hf, call = found[0]
+    sv0 = SymVal(ctx, hf, helpers=(hf is f))
+    a0 = single(sv0.value_ast(call_args(call)[0]) or ())
+    if a0 is None or a0[0] != 'ptr':
+        return None
+    hbase = a0[1]
+    sv = SymVal(ctx, f, seed_calls=[(call, ('ptr', hbase, {'U': 1}))])
+    base = hbase
+    if hf is not f:
+        # the base as the caller sees it: what it passes for the helper's parameter
+        base = None
+        for n in sv.cfg.live:
+            if n.ast is None:
+                continue
+            for x in walk(n.ast):
+                if x.get('kind') == 'CallExpr' and callee(x) and callee(x)[0] == 'fn' and callee(x)[1].get('_qn') and \
+                        any(ctx.G.defs.get(t, (None, None))[1] is hf for t in ctx.G.resolve_decl(callee(x)[1])):
+                    v = sv.expand(sv.value(n, x))
+                    for (_, t) in (v or ()):
+                        if t[0] == 'ptr':
+                            base = t[1]
+        if base is None:
+            return None
+    return sv, base, call, hf
